@@ -6,6 +6,7 @@ from .. import cases, facts
 SEEDS = [7, 11, 42, 99, 123]
 NTOK = 400
 
+COQCHK = 'C15'   # stdlib-only cone: coqchk -o re-checks it in under a minute (thorough tier)
 
 def token_table():
     tab = {}
